@@ -644,8 +644,11 @@ func (w *verifC18World) emitRead(recs []verifC18Rec, stream []byte, d verifC18Dm
 		}
 	}
 	ck := []int{}
-	for _, c := range calls {
-		if c.kind != 'S' {
+	for j, c := range calls {
+		// a checksum record was passed if the reader skipped it and went on; a Skip directly
+		// followed by an error is the reader rejecting the engine's answer (its own position
+		// differs from the engine's), whatever record it believed to be skipping
+		if c.kind != 'S' || (j == len(calls)-1 && errc != "none") {
 			continue
 		}
 		i := sort.Search(len(recs), func(i int) bool { return recs[i].Pos >= c.off })
